@@ -12,6 +12,7 @@ import Kust.GenMap
 import Kust.Sha256
 import Kust.Labels
 import Kust.Image
+import Kust.OpenApi
 import Kust.Gen.FieldSpecs
 import Kust.Gen.Lists
 open Lean Kust
@@ -211,6 +212,29 @@ def runImage (op : String) (a : Json) : Except String Json := do
     return Json.mkObj [("ok", Json.arr #[Json.str n, Json.str t, Json.str d])]
   | _ => throw s!"unknown image op {op}"
 
+def selOfString (s : String) : OpenApi.Sel :=
+  if s = "default" then .dflt false else if s = "defaultExplicit" then .dflt true
+  else if s = "custom1" then .custom 1 else if s = "custom2" then .custom 2 else .badVersion s
+
+def runOpenApi (op : String) (a : Json) : Except String Json := do
+  match op with
+  | "seq" =>
+    let builds ← (← (a.getObjValD "builds").getArr?).toList.mapM fun b => do
+      let sel ← (b.getObjValD "sel").getStr?
+      let ops ← strList (b.getObjValD "ops")
+      return (selOfString sel, ops.map fun o => if o = "ns" then OpenApi.Op.ns else OpenApi.Op.use)
+    let rec go (s : OpenApi.St) : List (OpenApi.Sel × List OpenApi.Op) → List Json
+      | [] => []
+      | (sel, ops) :: r =>
+        let res := OpenApi.build OpenApi.setSchema s sel ops
+        let j := match res.2 with
+          | none => Json.null
+          | some obs => Json.arr (obs.map fun o => Json.mkObj [("hasBuiltin", Json.bool o.hasBuiltin),
+              ("customs", Json.arr (o.customs.map fun (n : Nat) => Json.num n).toArray)]).toArray
+        j :: go res.1 r
+    return Json.mkObj [("ok", Json.arr (go {} builds).toArray)]
+  | _ => throw s!"unknown openapi op {op}"
+
 def dispatch (comp : String) (args : Json) : Except String Json :=
   match comp.splitOn "." with
   | ["fns", op] => runFns op args
@@ -220,6 +244,7 @@ def dispatch (comp : String) (args : Json) : Except String Json :=
   | ["gen", op] => runGen op args
   | ["labels", op] => runLabels op args
   | ["image", op] => runImage op args
+  | ["openapi", op] => runOpenApi op args
   | _ => throw s!"unknown component {comp}"
 
 partial def loop (hin hout : IO.FS.Stream) : IO Unit := do
